@@ -359,7 +359,7 @@ def run(ck, only=None):
                 ok, tags, msgs = probes.rustc_diagnose(mp, exe, r["text"], bp, extra=["-C", f"link-arg={os.path.join(wd, 'lib%d.o' % li)}"])
                 if ok:
                     break
-                bt = getattr(probes.rustc_diagnose, "last_by_tag", {})
+                bt = probes.last_by_tag()
                 bad = [f for k, f in enumerate(live) if f"K{k}" in tags]
                 if not bad:
                     return out + [(f, "caller-does-not-compile", "; ".join(sorted(set(msgs))[:3])) for f in live]
